@@ -124,6 +124,46 @@ theorem choose_valid (n : Nat) (hn : 2 ≤ n) (s : Nat → Nat → Int) (eps : I
         have : max (k / n) (k % n) < n := Nat.max_lt.mpr ⟨hr, hc⟩
         omega
 
+/-! ### the policy produces a trace of the trace model -/
+
+/-- with a non-negative epsilon (the shipped sorters use 5e-10) the maximum that is acted upon lies off the diagonal: the second
+pop is below the first -/
+theorem choose_lt (n : Nat) (hn : 2 ≤ n) (s : Nat → Nat → Int) (eps : Int) (heps : 0 ≤ eps) :
+    (choose n s eps).2 < (choose n s eps).1 := by
+  unfold choose
+  simp only
+  split
+  · simp; omega
+  · rename_i hgt
+    generalize hk : argmaxFirstAux (fun k => entry s (k / n) (k % n)) (n * n - 1) = k at hgt ⊢
+    by_cases hrc : k / n = k % n
+    · exfalso
+      apply hgt
+      simp [entry, hrc, heps]
+    · simp only
+      omega
+
+omit [DecidableEq κ] in
+/-- **The two models of C13 agree**: for a non-negative epsilon the clustering loop, whatever the similarity oracle answers, IS
+the trace model run on the pops the policy chose - so everything proved for every merge trace holds for it. -/
+theorem clusterLoop_eq_cluster (sim : List (Tree κ) → Nat → Nat → Int) (eps : Int) (heps : 0 ≤ eps) (fuel : Nat)
+    (nodes : List (Tree κ)) (hf : nodes.length ≤ fuel + 1) :
+    clusterLoop sim eps fuel nodes = cluster (policyTrace sim eps fuel nodes) nodes := by
+  induction fuel generalizing nodes with
+  | zero => simp [clusterLoop, policyTrace, cluster]
+  | succ fuel ih =>
+    unfold clusterLoop policyTrace
+    by_cases h1 : nodes.length ≤ 1
+    · simp [h1, cluster]
+    · simp only [h1, if_false]
+      obtain ⟨hv1, hv2⟩ := choose_valid nodes.length (by omega) (sim nodes) eps
+      have hlt := choose_lt nodes.length (by omega) (sim nodes) eps heps
+      obtain ⟨nodes', hp, _, hlen⟩ := popTwice_spec nodes _ _ hv1 hv2
+      rw [hp]
+      simp only [Option.bind_some, cluster]
+      rw [← popTwice_eq_clusterStep nodes _ _ hlt, hp, Option.bind_some]
+      exact ih nodes' (by omega)
+
 omit [DecidableEq κ] in
 /-- **the clustering loop is total**: for every similarity oracle, every epsilon and every non-empty list of clusters it ends
 with exactly one tree, whose leaves are the leaves it started from (none lost, none twice) -/
